@@ -590,6 +590,19 @@ def check_c12(tier):
                                       broken_round(texts)],
                           "schedule": [], "post": []})
             info[cid] = ("layout", case["shape"], one)
+    # ---- cache pressure: more than MAX_FILE_CACHE_SIZE (2000) analysed files make every further analysis run the
+    # eviction pass; then closes and queries.  Under the tracer a guard kept across the eviction's own removals is a hazard
+    # report instead of a hang
+    for one in (False, True):
+        cid = len(cases)
+        fill = [{"op": "analyze", "path": "/vwsp/fill/test_fill_%d.py" % k, "text": "def test_f%d(px):\n    pass\n" % k} for k in range(2050)]
+        cases.append({"id": cid, "one_shard": one, "mode": "trace", "pre": [],
+                      "threads": [[{"op": "analyze", "path": "/vwsp/conftest.py", "text": "import pytest\n\n\n@pytest.fixture\ndef px():\n    return 1\n"}]
+                                  + fill + [{"op": "goto", "path": "/vwsp/fill/test_fill_7.py", "line": 0, "col": 12},
+                                            {"op": "available", "path": "/vwsp/fill/test_fill_2049.py"},
+                                            {"op": "close", "path": "/vwsp/fill/test_fill_2049.py"}, {"op": "unused"}, {"op": "cycles"}]],
+                      "schedule": [], "post": []})
+        info[cid] = ("cache_pressure", {"files": 2051}, one)
     graphs = import_graph_cases()
     if tier == "quick":
         rnd.shuffle(graphs)
